@@ -197,7 +197,7 @@ impl Gen {
         match self.r.below(12) {
             0 => format!("{{ list(v: [{lit}, {lit}]) }}"),
             1 => format!("{{ nodes(n: {lit}) {{ name }} }}"),
-            2 => format!("query($a: Int = {lit}) {{ int(v: $a) }}"),
+            2 if self.defaults_ok() => format!("query($a: Int = {lit}) {{ int(v: $a) }}"),
             3 => format!("{{ rec(v: {{name: {lit}, n: {lit}, f: {lit}}}) }}"),
             4 => format!("{{ int @skip(if: {lit}) }}"),
             5 => format!("{{ choice(v: {{i: {lit}}}) }}"),
@@ -242,7 +242,8 @@ impl Gen {
             }
             19 => {
                 let n = *self.r.pick(&[10usize, 2_000]);
-                let defs: Vec<String> = (0..n).map(|i| format!("$v{i}: Int = {i}")).collect();
+                let ok = self.defaults_ok();
+                let defs: Vec<String> = (0..n).map(|i| if ok { format!("$v{i}: Int = {i}") } else { format!("$v{i}: Int") }).collect();
                 format!("query({}) {{ int(v: $v0) }}", defs.join(","))
             }
             20 => {
@@ -409,7 +410,10 @@ impl Gen {
     }
 
     pub fn nest_doc(&mut self) -> (String, String, u64) {
-        let c = *self.r.pick(&Self::CONSTRUCTS);
+        let mut c = *self.r.pick(&Self::CONSTRUCTS);
+        if !self.defaults_ok() && c.ends_with("_default") {
+            c = "list_value";
+        }
         let mut d = self.pick_depth();
         if c.starts_with("fragment_chain") {
             // ~40 bytes per link: keep the text size comparable to the other constructs
@@ -420,8 +424,46 @@ impl Gen {
 
     /// Any query text: valid, mutated, special, odd-shaped, (shallowly) nested.
     /// Returns (text, family, nest, hostile).
-    pub fn any_query_text(&mut self) -> (String, String, Option<(String, u64)>, bool) {
-        match self.r.weighted(&[14, 26, 22, 18, 8, 5, 7]) {
+    /// `pure`: the caller hands the text to the library as it is (no transport-level mutation).
+    pub fn any_query_text(&mut self, pure: bool) -> (String, String, Option<(String, u64)>, bool) {
+        let branch = self.r.weighted(&[14, 26, 22, 18, 8, 5, 7, if self.feat_vardef { 2 } else { 0 }]);
+        self.safe_ctx = pure && matches!(branch, 0 | 3 | 4 | 6);
+        let out = self.any_query_text_branch(branch);
+        self.safe_ctx = false;
+        out
+    }
+
+    /// `query($v: <unknown type> = <default>)`: only generated with the feature on.
+    pub fn unknown_vardef_doc(&mut self) -> String {
+        let ty = match self.r.below(10) {
+            0 => "Nope".to_string(),
+            1 => "[Nope!]!".into(),
+            2 => "[Strin]".into(),
+            3 => "[int!]".into(),
+            4 => "[[Unknown]]".into(),
+            5 => "[__Nope]!".into(),
+            6 => "[Query]".into(),
+            7 => "[Node]".into(),
+            8 => format!("[{}]", self.mutate_chars("String")),
+            _ => self.mutate_chars("[Int!]"),
+        };
+        let val = match self.r.below(5) {
+            0 => "1".to_string(),
+            1 => "\"x\"".into(),
+            2 => "[1]".into(),
+            3 => "{a: 1}".into(),
+            _ => "RED".into(),
+        };
+        match self.r.below(3) {
+            0 => format!("query($v: {ty} = {val}) {{ __typename }}"),
+            1 => format!("query Q($a: Int, $v: {ty} = {val}) {{ int(v: $a) any(v: $v) }}"),
+            _ => format!("mutation($v: {ty} = {val}) {{ setInt(v: 1) }}"),
+        }
+    }
+
+    fn any_query_text_branch(&mut self, branch: usize) -> (String, String, Option<(String, u64)>, bool) {
+        match branch {
+            7 => (self.unknown_vardef_doc(), "unknown-vardef-type".into(), None, true),
             0 => (self.valid_doc(1, false).text, "valid".into(), None, false),
             1 => {
                 let d = self.valid_doc(1, false).text;
